@@ -178,4 +178,54 @@ def eraseW (w : World) : World := { w with envs := w.envs.map erase }
 def specRun (cfg : Cfg) (L : Lib) (w : World) (ops : List Op) : List (Except Exc Val) :=
   specRunFrom cfg L (eraseW w) ops
 
+/-! ### what stays out of scope: the uncovered (property, key) pairs
+
+`Gen.ecUncovered` lists the pairs the probe of the live code found uncovered: the property reads the
+key, assigning the key leaves the property's cache entry in place.  Some of them are harmless by
+design (`ecByDesign`, proved so); on the others the cache IS observable (`stalePairs`, witnesses
+in `Props/EnvCache.lean`): they are the residue of the theorem, made explicit by `Safe`. -/
+
+/-- uncovered and harmless: the header view reads its own environ live; the buffered body is
+state, not cache — once the stream is consumed the framing headers no longer matter -/
+def ecByDesign : List (String × String) :=
+  [("headers", "CONTENT_LENGTH"), ("headers", "CONTENT_TYPE"),
+   ("params", "HTTP_TRANSFER_ENCODING"), ("json", "HTTP_TRANSFER_ENCODING"), ("POST", "HTTP_TRANSFER_ENCODING"),
+   ("forms", "HTTP_TRANSFER_ENCODING"), ("files", "HTTP_TRANSFER_ENCODING"),
+   ("_body", "CONTENT_LENGTH"), ("_body", "CONTENT_TYPE"), ("_body", "HTTP_TRANSFER_ENCODING")]
+
+/-- the uncovered pairs on which the cache is observable -/
+def stalePairs : List (String × String) := Gen.ecUncovered.filter fun p => !ecByDesign.contains p
+
+/-- assigning / deleting `K` on environ `e` is in scope: no property of a stale pair `(P, K)` is
+cached at that moment -/
+def safeSet (e : Env) (K : Key) : Bool :=
+  stalePairs.all fun ak => !(ak.2.toList == K) || Prop'.all.all fun p => !(p.attr == ak.1) || (e.get? p.key).isNone
+
+/-- the request holds no header view, or a view of its own environ (not one taken over by `copy()`) -/
+def ownView (e : Env) (i : Nat) : Bool :=
+  match e.get? kHeaders with
+  | Option.none => true
+  | some v => v == .view i
+
+/-- one operation is in scope -/
+def safeOp (w : World) : Op → Bool
+  | .read i p => match w.envs[i]? with
+    | some e => !(p == .headers) || ownView e i
+    | Option.none => true
+  | .setStr i k _ => userKey k && !(k == kInput) && match w.envs[i]? with
+    | some e => safeSet e k
+    | Option.none => true
+  | .setInput i _ => match w.envs[i]? with
+    | some e => safeSet e kInput
+    | Option.none => true
+  | .del i k => userKey k && match w.envs[i]? with
+    | some e => safeSet e k
+    | Option.none => true
+  | .copy _ => true
+
+/-- every operation of the sequence is in scope when its turn comes -/
+def Safe (cfg : Cfg) (L : Lib) : World → List Op → Prop
+  | _, [] => True
+  | w, op :: ops => safeOp w op = true ∧ Safe cfg L (step cfg L w op).1 ops
+
 end Ombott.EnvCache
